@@ -211,7 +211,9 @@ def cog_gbox(
 
 
 def yaxis_from_shape(
-    shape: Tuple[int, ...], gbox: Optional[GeoBox] = None
+    shape: Tuple[int, ...],
+    gbox: Optional[GeoBox] = None,
+    yaxis: Optional[int] = None,
 ) -> Tuple[AxisOrder, int]:
     ndim = len(shape)
 
@@ -220,6 +222,22 @@ def yaxis_from_shape(
 
     if ndim != 3:
         raise ValueError("Can only work with 2-d or 3-d data")
+
+    if yaxis is not None:
+        # caller knows where the Y axis is, no need to guess
+        if yaxis not in (0, 1):
+            raise ValueError("Y axis must be first or second")
+        if gbox is not None and gbox.shape != shape[yaxis : yaxis + 2]:
+            raise ValueError("Geobox and image shape do not match")
+        return ("YXS", 0) if yaxis == 0 else ("SYX", 1)
+
+    if gbox is not None:
+        # geobox resolves the ambiguity unless both readings fit
+        yxs, syx = gbox.shape == shape[:2], gbox.shape == shape[1:]
+        if syx and not yxs:
+            return "SYX", 1
+        if yxs and not syx:
+            return "YXS", 0
     if shape[-1] in (3, 4):  # YXS in RGB(A)
         return "YXS", 0
 
